@@ -101,6 +101,18 @@ Proof.
           (conj H1 (conj H2 (conj H3 (conj c_live3 (conj H4 H5)))))))))).
 Qed.
 
+(* a specific item of 0: the value is refused although nothing is in flight *)
+Example C06_threshold_zero_nonvacuous :
+  let r := {| r_metric := 0; r_behavior := 0; r_idx := 0; r_key := 0; r_thr := 3; r_maxq := 0;
+              r_burst := 0; r_dur := 0; r_cap := 0; r_spec := [(6, 0)] |} in
+  is_conc r = true /\ tok_count r 6 <= 0 /\ CI [6] 0 [] r metric0 /\
+  snd (conc_check r metric0 6) = DBlock (Some 1) /\ snd (conc_check r metric0 5) = DPass.
+Proof.
+  cbv zeta. split; [reflexivity|]. split; [vm_compute; discriminate|]. split.
+  - intros _. cbn [m_conc metric0 lru_keys map]. split; [apply NoDup_nil|]. split; [intros x []|]. intros v. reflexivity.
+  - vm_compute. split; reflexivity.
+Qed.
+
 (* Known finding C06-F1: with more values than ParamsMaxCapacity the cell of a value that is
    still in flight is evicted; its count is lost, later exits drive the re-created cell to -1
    and the threshold is exceeded for good.  The faithful model exhibits it: *)
